@@ -11,7 +11,10 @@ if not Path(wt).exists():
     subprocess.run(["git", "-C", "/repo", "worktree", "add", "-q", "--detach", wt, "HEAD"], check=True)
 nudge = ["Prefer a change on the compile-time side (lexer / parser / compiler / optimizer / nodes / idtracking).",
          "Prefer a change on the run-time side (runtime.py / environment.py / filters.py / tests.py / sandbox.py / utils.py / loaders / caches).",
-         "Prefer two cooperating small edits in different files that each look harmless alone."][(n - 1) % 3]
+         "Prefer two cooperating small edits in different files that each look harmless alone.",
+         "Prefer a change in a helper that several features share (utils.py, async_utils.py, visitor.py, idtracking.py, nodes.py, "
+         "a runtime helper, a base class) whose effect on this property is indirect, or a change to a default value, a cache, an "
+         "ordering or an exception class that only matters for this property under an unusual configuration."][(n - 1) % 4]
 print(f"""You are testing how well a verification suite detects regressions in pallets/jinja (a Python template engine).
 You get ONE semantic property and your own scratch git worktree of the repository at {wt} (work only there; never touch /repo or /verif; do not read /verif).
 Python: /venv/bin/python (3.12, jinja2's dependencies installed). Run things with PYTHONPATH={wt}/src so that your worktree's jinja2 is imported
